@@ -296,6 +296,14 @@ impl MqttState {
 
         self.outgoing_rel.set(pubcomp.pkid as usize, false);
         self.inflight -= 1;
+
+        // The packet id may have been given to another publish between pubrec and pubcomp.
+        // A publish waiting for this id then keeps waiting for that holder's ack instead of
+        // evicting it from the unacked table
+        if self.outgoing_pub[pubcomp.pkid as usize].is_some() {
+            return Ok(None);
+        }
+
         let packet = self.check_collision(pubcomp.pkid).map(|publish| {
             // the released publish is in flight from now on, like in the puback path
             self.outgoing_pub[publish.pkid as usize] = Some(publish.clone());
